@@ -46,7 +46,7 @@ impl SqliteAdapter {
             .unwrap()
             .borrow()
             .execute(
-                "CREATE TABLE entries (key VARCHAR NOT NULL PRIMARY KEY, value VARCHAR NOT NULL)",
+                "CREATE TABLE IF NOT EXISTS entries (key VARCHAR NOT NULL PRIMARY KEY, value VARCHAR NOT NULL)",
                 [],
             )
             .unwrap();
@@ -148,11 +148,7 @@ impl Adapter for SqliteAdapter {
             .into_iter()
             .filter_map(|key| {
                 let key: String = key.unwrap();
-                if key.ends_with(ext) {
-                    Some(key)
-                } else {
-                    None
-                }
+                key.strip_suffix(ext).map(|k| k.to_string())
             })
             .collect())
     }
